@@ -460,12 +460,21 @@ static void cond_handshake(vf::Ctx& c)
 			(void)t0;
 			left++;
 		});
-	for (;;) {
-		mutex.lock();
-		if (waiting == N) break;
+	// the signaller takes the mutex with a bounded wait: a waiter that went to sleep without releasing it (condition bound to
+	// another mutex) shows up as a failed check, not as a hang
+	bool locked = false, allWaiting = false;
+	double tl = vf::now();
+	while (vf::now() - tl < 20.0) {
+		if (!mutex.trylock()) { sched_yield(); continue; }
+		if (waiting == N) { locked = true; allWaiting = true; break; }
 		mutex.unlock();
 		sched_yield();
 	}
+	if (!allWaiting) {
+		c.fail("condition.waiter-sleeps-holding-the-mutex", vf::fmt("the signaller could not take the mutex for 20 s while %d waiters were inside wait()", N));
+		_exit(96);   // the waiters cannot be woken: leave the process (the runner records the failure before)
+	}
+	(void)locked;
 	go = true;
 	double ts = vf::now();
 	cond.signal();
